@@ -5,7 +5,8 @@ ORDER = []
 
 
 class Loop:
-    def __init__(self, over=None, invariant=(), modifies=None, kind=None, hints=(), lemmas=(), pre_lemmas=()):
+    def __init__(self, over=None, invariant=(), modifies=None, kind=None, hints=(), lemmas=(), pre_lemmas=(), exit_lemmas=()):
+        self.exit_lemmas = list(exit_lemmas)  # assertions proved in the state right after the loop (then available to what follows)
         self.pre_lemmas = list(pre_lemmas)  # assertions proved at the start of the body (after the loop variable is bound)
         self.lemmas = list(lemmas)        # intermediate assertions proved at the end of the body, then available to the invariant proofs
         self.hints = list(hints)          # ground spec expressions evaluated after the body (seed instances of opaque functions)
